@@ -325,7 +325,7 @@ def r10_3(ctx, rc):
         if isinstance(a, ast.Starred):
             if isinstance(a.value, ast.Name) and isinstance(
                     b.get(a.value.id), ast.AST):
-                expand(b[a.value.id])
+                expand(ctx.H.subst(b[a.value.id], F, cnF))
             else:
                 eff.append(None)
         else:
